@@ -205,7 +205,9 @@ func c19Round2(c *Ctx) {
 	c.R.Rule("remaining-source-exact", "Rewriter.RemainingSource copies each left-over declaration from exactly d.Pos() to d.End()", 1)
 	if fn := c.fn(pkgRewrite, "*Rewriter.RemainingSource"); fn != nil {
 		n := 0
-		for _, call := range an.CallsIn(fn, func(_ ssa.CallInstruction, ci an.CalleeInfo) bool { return ci.Static != nil && ci.Static.Name() == "getSource" }) {
+		for _, call := range an.CallsIn(fn, func(_ ssa.CallInstruction, ci an.CalleeInfo) bool {
+			return ci.Static != nil && ci.Static.Name() == "getSource"
+		}) {
 			args := call.Common().Args
 			if len(args) < 3 {
 				continue
@@ -345,7 +347,7 @@ func c20Round2(c *Ctx, feds []*GenPkg) {
 					reachesLoop := false
 					for b2 := range an.Reach(blk, nil) {
 						for _, p := range b2.Preds {
-							if b2.Dominates(p) && b2 != blk {
+							if b2.Dominates(p) {
 								reachesLoop = true
 							}
 						}
